@@ -187,16 +187,24 @@ def features(d: dict) -> Dict[str, Any]:
     objs = d["objs"]
     sc = read_schema()
     inv = {v: k for k, v in c04.TAGS.t.items()}
-    self_fields = {inv[t // 2][0] for t in sc["selfref"]}
+    self_fields = {inv[t // 2][0] for t in sc["selfref"]}      # single references the real mapper reads as ONETOMANY (none since 22a99b9)
     srcs: Dict[Tuple[str, int], set] = {}
-    nself = 0
+    own: Dict[Tuple[str, int], set] = {}
+    nself = nown = 0
     for i, o in enumerate(objs):
-        for f, kind, _t, _o in c04.REFS.get(o["c"], []):
-            if kind == "one" and f in self_fields and o["r"].get(f):
-                nself += 1
-                srcs.setdefault((f, o["r"][f][0]), set()).add(i)
+        for f, kind, t, _o in c04.REFS.get(o["c"], []):
+            if kind == "one" and o["r"].get(f):
+                k = o["r"][f][0]
+                if f in self_fields:
+                    nself += 1
+                    srcs.setdefault((f, k), set()).add(i)
+                if o["c"] in c04.subs(t) or objs[k]["c"] == o["c"]:     # a reference into the own table or to a subclass of it
+                    nown += 1
+                    own.setdefault((f, k), set()).add(i)
     ft["selfref_values"] = nself
     ft["selfref_shared"] = sum(1 for s in srcs.values() if len(s) >= 2)
+    ft["ownhier_single_refs"] = nown
+    ft["ownhier_shared_target"] = sum(1 for s in own.values() if len(s) >= 2)
     return ft
 
 
@@ -244,89 +252,6 @@ def run_impl(descr) -> Dict[str, Any]:
     finally:
         engine.dispose()
     return out
-
-
-def selfref_groups(d: dict) -> List[Tuple[str, List[int]]]:
-    """(field, sources) for every target of a self-referential single reference that has >= 2 sources."""
-    sc = read_schema()
-    inv = {v: k for k, v in c04.TAGS.t.items()}
-    self_fields = {inv[t // 2][0] for t in sc["selfref"]}
-    srcs: Dict[Tuple[str, int], List[int]] = {}
-    for i, o in enumerate(d["objs"]):
-        for f, kind, _t, _o in c04.REFS.get(o["c"], []):
-            if kind == "one" and f in self_fields and o["r"].get(f):
-                srcs.setdefault((f, o["r"][f][0]), []).append(i)
-    return [(f, s) for (f, _t), s in sorted(srcs.items()) if len(s) >= 2]
-
-
-def matches_admissible(d: dict, back) -> bool:
-    """Is [back] what a reload may legitimately look like, given the two modelled SQLAlchemy behaviours whose details
-    depend on the unit-of-work order?  Relaxed identity-tracking bisimulation between the input graph and [back]:
-    * a collection comes back with the first occurrences of its elements only;
-    * for every target of a self-referential single reference that has >= 2 sources (a group), a source may have lost
-      the link (None); at most ONE source of a group keeps it, and if no visited source keeps it some source of the group
-      must be unreachable in the reloaded graph (the keeper).  Everything else must agree exactly."""
-    objs = c04.build(d)
-    idx = {id(o): i for i, o in enumerate(objs)}
-    group_of: Dict[Tuple[str, int], Tuple[str, int]] = {}
-    sizes: Dict[Tuple[str, int], int] = {}
-    for f, srcs in selfref_groups(d):
-        t = d["objs"][srcs[0]]["r"][f][0]
-        sizes[(f, t)] = len(srcs)
-        for sidx in srcs:
-            group_of[(f, sidx)] = (f, t)
-    kept: Dict[Tuple[str, int], int] = {}
-    seen_src: Dict[Tuple[str, int], int] = {}
-    m_ab: Dict[int, Any] = {}
-    m_ba: Dict[int, Any] = {}
-    stack = [(objs[d["root"]], back)]
-    while stack:
-        x, y = stack.pop()
-        if x is None or y is None:
-            if x is not y:
-                return False
-            continue
-        if type(x) is not type(y):
-            return False
-        if id(x) in m_ab:
-            if m_ab[id(x)] is not y:
-                return False
-            continue
-        if id(y) in m_ba:
-            return False
-        m_ab[id(x)] = y
-        m_ba[id(y)] = x
-        cn = type(x).__name__
-        for f in c04.SCAL.get(cn, []):
-            if not c04.has_scalar(y, f) or c04.scalar_key(c04.get_scalar(x, f)) != c04.scalar_key(c04.get_scalar(y, f)):
-                return False
-        for f, kind, _t, _opt in c04.REFS.get(cn, []):
-            u, v = getattr(x, f), getattr(y, f, None)
-            if kind == "one":
-                g = group_of.get((f, idx.get(id(x), -1)))
-                if g is not None:
-                    seen_src[g] = seen_src.get(g, 0) + 1
-                    if v is None:
-                        continue
-                    kept[g] = kept.get(g, 0) + 1
-                stack.append((u, v))
-            else:
-                first: List[Any] = []
-                for e in u:
-                    if not any(e is z for z in first):
-                        first.append(e)
-                try:
-                    v = list(v)
-                except TypeError:
-                    return False
-                if len(first) != len(v):
-                    return False
-                stack.extend(zip(first, v))
-    for g, n in sizes.items():
-        k = kept.get(g, 0)
-        if k > 1 or (k == 0 and seen_src.get(g, 0) >= n):
-            return False
-    return True
 
 
 def explain(descr) -> str:
@@ -544,8 +469,6 @@ def _worker_main(argv) -> int:
             m = prepare_case04(dsc, org, model_ok)
         else:
             m = prepare_case(dsc, org, sc, model_ok)
-            if m["res"].get("py_iso") is not None and m["ft"]["selfref_shared"] and "_back" in m["res"]:
-                m["admissible"] = matches_admissible(dsc, m["res"]["_back"])
             m["res"].pop("_back", None)
         m["ft"].update(c04.falsy_features(dsc))
         return m
@@ -556,7 +479,7 @@ def _worker_main(argv) -> int:
             return True
         if res.get("py_iso") is None:
             return False
-        return prop == "C04" or not (m["ft"]["selfref_shared"] or m["ft"]["repeated_elems"])
+        return prop == "C04" or not m["ft"]["repeated_elems"]
 
     shrunk = 0
     todo = [(replay["case"], "replay")] if replay else [(None, f"model{idx}:gen:{i}") for i in range(ncases)]
@@ -658,26 +581,18 @@ def decide(rep: Report, m: Dict[str, Any], v, model_ok: bool, inst: Dict[str, in
     if code in (2, 3) and not in_f:
         altc = ft["altcycle"] and not (frag & 1)
         # exact instance: the implementation fails exactly as the faithful model predicts
-        if code == 2 and (ft["repeated_elems"] or ft["selfref_shared"] or altc):
-            for k, on in (("C05-b", ft["repeated_elems"]), ("C05-a", ft["selfref_shared"]), ("C04-a", altc)):
+        # (C05-a is fixed by 22a99b9: a lost self-referential link is a VIOLATION again, not an instance)
+        if code == 2 and not ft["selfref_shared"] and (ft["repeated_elems"] or altc):
+            for k, on in (("C05-b", ft["repeated_elems"]), ("C04-a", altc)):
                 inst[k] += 1 if on else 0
             return
-        # C05-a is INEXACT in the model: which of the sources sharing a target keeps its link depends on SQLAlchemy's
-        # unit-of-work order (sets of states, id()-dependent).  Accept exactly the admissible outcomes.
-        if ft["selfref_shared"]:
-            adm = m["admissible"] if "admissible" in m else matches_admissible(m["descr"], res["_back"])
-            if adm:
-                inst["C05-a"] += 1
-                tallies["inexact"] += 1
-                inst["C05-b"] += 1 if ft["repeated_elems"] else 0
-                return
         if altc and "Mapping" in (res["py_iso"] or "") and not ft["selfref_shared"]:
             inst["C04-a"] += 1     # combined with another class: the difference found is the mapping object of C04-a
             return
     bad.append((m, f"code {code} frag {frag}: {res['py_iso']}"))
 
 
-DIST_KEYS = (("shared>0", "shared"), ("cyclic>0", "cyclic_objs"), ("none>0", "none_refs"), ("empty_coll>0", "empty_colls"),
+DIST_KEYS = (("ownhier_single_refs>0", "ownhier_single_refs"), ("ownhier_shared_target>0", "ownhier_shared_target"), ("shared>0", "shared"), ("cyclic>0", "cyclic_objs"), ("none>0", "none_refs"), ("empty_coll>0", "empty_colls"),
              ("repeated_elem>0", "repeated_elems"), ("subclass_in_base_field>0", "subclass_in_base_field"), ("alt>0", "alt_objs"),
              ("altbase>0", "altbase_objs"), ("selfref_values>0", "selfref_values"), ("selfref_shared>0", "selfref_shared"))
 
@@ -711,7 +626,7 @@ def run(tier: str, seed: int, replay=None) -> int:
         "source pins pins/ormrt.json (38 methods of dao.py, alternative_mappings.py, custom_types.py, wrapped_table.py, utils.create_engine that the hand "
         "models mirror; a changed method reopens the correspondence obligation)",
         "harness/c04.py (class table, builder, heap dump, scalar interning with numbers by value, python bisimulation) and harness/c05.py "
-        "(incl. the generator of class models and the admissible-outcome matcher for the inexact class K_selfref)",
+        "(incl. the generator of class models)",
         "user code of the dataset (alternative mappings, ConceptType decorator, __post_init__) is run, not modelled",
     ]
     rep.assume = ["primary keys: any assignment injective per hierarchy (theorem); the run uses SQLite's rowids",
@@ -815,9 +730,9 @@ def run(tier: str, seed: int, replay=None) -> int:
         return rep.finish()
     codes = dict(zip(idx, vals))
 
-    inst = {"C05-a": 0, "C05-b": 0, "C04-a": 0, "C04-c": 0,
+    inst = {"C05-b": 0, "C04-a": 0, "C04-c": 0,
             "_c04c_open": any(f.fid == "C04-c" and f.kind == "open" for f in findings)}
-    tallies = {"in_F": 0, "stale": 0, "inexact": 0}
+    tallies = {"in_F": 0, "stale": 0}
     bad: List[Tuple[dict, str]] = []
     for i, m in enumerate(metas):
         decide(rep, m, codes.get(i), model_ok, inst, tallies, bad)
@@ -827,8 +742,6 @@ def run(tier: str, seed: int, replay=None) -> int:
     rep.extra["distribution"] = {"dataset": dist, "generated_models": gdist, "generated_model_info": gen_info}
     inst.pop("_c04c_open", None)
     rep.extra["known_finding_instances"] = inst
-    rep.extra["inexact_model_instances"] = {"C05-a": tallies["inexact"], "note": "the surviving link among sources sharing a self-referential target depends on "
-                                            "SQLAlchemy's unit-of-work order; the model fixes one order, the harness accepts exactly the admissible outcomes"}
     rep.extra["schema"] = {"tables": len(sc["tables"]), "association_tables": len(sc["assoc"]), "selfref_tags": sc["selfref"]}
     rep.samples = [{"case": m["descr"], "features": m["ft"], "loaded_via": m["res"].get("via"), "origin": m["origin"]} for m in metas[:: max(1, len(metas) // 5)]][:5]
     for m, why in bad[:5]:
@@ -840,8 +753,7 @@ def run(tier: str, seed: int, replay=None) -> int:
                     return "exc" in res
                 if res0.get("py_iso") is None:
                     return False          # row-count / chain failures are not shrunk
-                return "exc" not in res and res.get("py_iso") is not None and not (
-                    features(d)["selfref_shared"] and matches_admissible(d, res["_back"])) and not features(d)["repeated_elems"]
+                return "exc" not in res and res.get("py_iso") is not None and not features(d)["repeated_elems"]
             small = c04.shrink(m["descr"], fails, budget=60)
             if small != m["descr"]:
                 r2 = run_impl(small)
@@ -873,8 +785,7 @@ def run(tier: str, seed: int, replay=None) -> int:
                 elif f.kind == "open":
                     rep.note("known finding C04-c: the scenario no longer yields a wrong object (repaired, or the address was not reused)")
                 continue
-            still = any(m["origin"] == f.witness and (m.get("code") == 2 or (f.cls == "K_selfref" and m.get("code") == 3 and
-                        matches_admissible(m["descr"], m["res"]["_back"]))) for m in metas)
+            still = any(m["origin"] == f.witness and m.get("code") == 2 for m in metas)
             if f.kind == "open":
                 if still:
                     rep.known(f)
